@@ -34,7 +34,7 @@ static bool looks_like_id_key(const std::string &k) { return k == "id"; }
 
 void hash_node(const Node &n, Hash &h, bool abstract_ids) {
     h.str(n.key);
-    if (abstract_ids && (looks_like_id_key(n.key) || n.key == "created_at" || n.key == "name" || n.key == "ref")) h.str("*");
+    if (abstract_ids && (looks_like_id_key(n.key) || n.key == "created_at" || n.key == "name" || n.key == "ref" || n.key.compare(0, 4, "lnk_") == 0)) h.str(n.val.size() > 10 ? "*" : n.val);
     else h.str(n.val);
     h.u64(n.kids.size());
     for (auto &c : n.kids) hash_node(c, h, abstract_ids);
@@ -121,7 +121,10 @@ static std::string elem_ident(const Node &e) {
 }
 
 static bool order_rec(const Node &a, const Node &b, const std::string &path, std::string &where) {
-    if (a.list && b.list) {
+    bool entity_list = a.list && b.list;
+    for (auto &k : a.kids) if (!(k.is_record() || k.key == "ref")) entity_list = false;
+    for (auto &k : b.kids) if (!(k.is_record() || k.key == "ref")) entity_list = false;
+    if (entity_list) {
         std::map<std::string, size_t> posb;
         for (size_t i = 0; i < b.kids.size(); i++) posb[elem_ident(b.kids[i])] = i;
         std::set<std::string> ina;
